@@ -9,8 +9,9 @@ Line protocol for the chain coder.
 init: `binary ws` | `compressed ws` | `remainders ws` | `raw comp rems hc hr`
       (word lists in Rust `Vec` order, i.e. top of stack last); a failing constructor makes the
       whole line `err`.
-ops:  `dec b cdf` · `enc b cum p` · `encnone b` · `encsym b cdf s` · `encs b form cdf syms errAt`
-      · `decs b form cdf n errAt` · `cp q` · `incp q` · `decp q` · `whole` · `raw` · `intorem`
+ops:  `dec p b cdf` · `enc p b cum pr` · `encnone p b` · `encsym p b cdf s`
+      · `encs p b form cdf syms errAt` · `decs p b form cdf n errAt` (`p` = the precision the
+      generator expects the coder to have; `skip` if it differs) · `cp q` · `incp q` · `decp q` · `whole` · `raw` · `intorem`
       · `intocomp` · `intobin` · `reimport 1|2` · `final comp|bin` · `mex` · `mfull` · `clone`
       · `snap` · `seekto i` · `undo` · `undoall`
 
@@ -22,7 +23,7 @@ open CV CV.Driver CV.Chain
 /-- what `undo` re-does: a decoded symbol (to be encoded back with the same model) or a
     precision change (to be reverted) -/
 inductive Ghost where
-  | sym (b : Nat) (cdf : List Nat) (s : Nat)
+  | sym (p b : Nat) (cdf : List Nat) (s : Nat)
   | prec (oldP : Nat)
 
 structure St where
@@ -118,8 +119,9 @@ def listGet? : List α → Nat → Option α
 def undoOne (W S : Nat) (st : St) : St × String × Bool :=
   match st.ghost with
   | [] => (st, "empty", false)
-  | .sym b t s :: rest =>
+  | .sym p b t s :: rest =>
     let st := { st with ghost := rest }
+    if p ≠ st.P then (st, "skip", false) else
     match encode (cfgOf W S st.P b) (tableModel t) s st.x with
     | .ok y => ({ st with x := y }, "ok", false)
     | .error e => (st, (encErrStr e).1, (encErrStr e).2)
@@ -140,23 +142,27 @@ def undoAll (W S : Nat) : Nat → St → Nat → St × String × Bool
 def doOp (W S : Nat) (st : St) (seg : List String) : Option (St × String × Bool) :=
   let x := st.x
   let upd (r : Coder × String × Bool) : St × String × Bool := ({ st with x := r.1 }, r.2.1, r.2.2)
+  let skip (p : String) (k : St → Option (St × String × Bool)) : Option (St × String × Bool) :=
+    match parseHex p with
+    | none => none
+    | some p => if p ≠ st.P then some (st, "skip", false) else k st
   match seg with
-  | ["dec", b, cdf] => do
+  | ["dec", p, b, cdf] => skip p fun st => do
       let c := cfgOf W S st.P (← parseHex b)
       let t ← parseList cdf
       match decode c (tableModel t) x with
-      | .ok (s, y) => some ({ st with x := y, ghost := .sym c.B t s :: st.ghost }, toHex s, false)
+      | .ok (s, y) => some ({ st with x := y, ghost := .sym st.P c.B t s :: st.ghost }, toHex s, false)
       | .error .outOfData => some (st, "out_of_data", false)
       | .error (.fault f) => some (st, faultStr f, true)
-  | ["enc", b, cum, pr] => do
+  | ["enc", p, b, cum, pr] => skip p fun st => do
       let c := cfgOf W S st.P (← parseHex b)
       some (upd (encOut (encodeCP c x (← parseHex cum) (← parseHex pr)) x))
-  | ["encnone", _] => some (st, "impossible", false)
-  | ["encsym", b, cdf, s] => do
+  | ["encnone", p, _] => skip p fun st => some (st, "impossible", false)
+  | ["encsym", p, b, cdf, s] => skip p fun st => do
       let c := cfgOf W S st.P (← parseHex b)
       let t ← parseList cdf
       some (upd (encOut (encode c (tableModel t) (← parseHex s) x) x))
-  | ["encs", b, form, cdf, syms, errAt] => do
+  | ["encs", p, b, form, cdf, syms, errAt] => skip p fun st => do
       let c := cfgOf W S st.P (← parseHex b)
       let t ← parseList cdf
       let syms ← parseList syms
@@ -168,7 +174,7 @@ def doOp (W S : Nat) (st : St) (seg : List String) : Option (St × String × Boo
         if isTry && errAt == some i then none else some s)
       let items := if form == 1 || form == 3 || form == 5 then items.reverse else items
       some (upd (encLoop c t x items))
-  | ["decs", b, form, cdf, n, errAt] => do
+  | ["decs", p, b, form, cdf, n, errAt] => skip p fun st => do
       let c := cfgOf W S st.P (← parseHex b)
       let t ← parseList cdf
       let n ← parseHex n
@@ -177,7 +183,7 @@ def doOp (W S : Nat) (st : St) (seg : List String) : Option (St × String × Boo
       if form > 2 then none else
       let items : List Bool := (List.range n).map (fun i => form == 1 && errAt == some i)
       let (y, acc, out, dead) := decLoop c t x items []
-      some ({ st with x := y, ghost := acc.map (Ghost.sym c.B t) ++ st.ghost }, out, dead)
+      some ({ st with x := y, ghost := acc.map (Ghost.sym st.P c.B t) ++ st.ghost }, out, dead)
   | [op, q] =>
       if op == "cp" || op == "incp" || op == "decp" then do
         let q ← parseHex q
